@@ -1012,6 +1012,15 @@ func (g *pgen) rloop() {
 	if shadow != "" {
 		g.emit("probe(\"after-shadow\", " + shadow + ")")
 	}
+	if form != 1 && g.r.chance(1, 3) {
+		// the key of a finished loop keeps its value, whatever later loops do
+		g.pendingReads = append(g.pendingReads, k)
+		g.count("range key read after its loop has finished")
+	}
+	if len(g.pendingReads) > 0 && g.loopDepth == 0 && g.r.chance(1, 2) {
+		g.emit("probe(\"after-loops\", " + strings.Join(g.pendingReads, ", ") + ")")
+		g.pendingReads = nil
+	}
 	g.count("range loop")
 }
 
